@@ -1962,6 +1962,22 @@ class Stream:
 
         self.change_state(State.IDLE)
 
+    async def abort(self) -> None:
+        """Abort the stream and transit to IDLE state."""
+        if self.state == State.IDLE:
+            raise InvalidStateError('current state is IDLE')
+
+        logger.debug('aborting remote endpoint')
+        await self.remote_endpoint.abort()
+
+        # Release any channels we may have created
+        self.change_state(State.ABORTING)
+        if self.rtp_channel:
+            await self.rtp_channel.disconnect()
+            self.rtp_channel = None
+
+        self.change_state(State.IDLE)
+
     async def on_set_configuration_command(
         self, configuration: Iterable[ServiceCapabilities]
     ) -> Message | None:
